@@ -1,13 +1,196 @@
 import Cfi.Files
 import Spec.C10
-/-! C10 — property theorems (record width; the stream theorem is added as the
-per-kind laws are completed). -/
+import Proofs.RegLine
+import Proofs.RegClassify
+import Proofs.Accounting
+import Props.C01
+/-!
+C10 — property theorems.
+
+`text_positional`: for EVERY stream of registers in positional text storage
+whose values obey the read half of the per-field law (C01; a theorem for
+integers, literals, floats and missing values), the model's write-all /
+read-all run through one buffer satisfies the whole of `Spec.C10.holds`: each
+register is one line, carries its identifier left-justified, is recognised by
+its own type, reads back to the canonical data, and the stream position after
+each read is exactly the end of what the corresponding write produced.
+-/
 namespace Props.C10
-open Cfi Spec.C10
+open Cfi Cfi.Text Spec.C10 Spec.C01 Props.C01
 
 /-- the number of bytes a binary register asks for is the identifier width plus
 the field widths — the width of the composite line, not more (D7) -/
 theorem recordSize_eq (r : RegDef) : r.recordSize = r.digits + (r.fields.map (·.size)).sum := by
   simp [RegDef.recordSize, RegDef.line, Line.size, RegDef.idField, Field.mk']
+
+/-! ### positional text -/
+
+structure ItemText (r : RegDef) (data : List Val) : Prop where
+  hdel : r.delimiter = .none
+  hid : r.ident.length ≤ r.digits
+  hstart : ∀ f ∈ r.fields, r.digits ≤ f.start
+  hdis : Cfi.Disjoint r.fields
+  hlen : r.fields.length = data.length
+  hne : RegDef.isEmpty data = false
+  hidnl : ¬ '\n' ∈ r.ident
+  hlaw : ∀ fv ∈ r.fields.zip data, ReadLaw fv.1 fv.2
+  hnl : ∀ fv ∈ r.fields.zip data, ∀ t, renderText fv.1 fv.2 = .ok t → ¬ '\n' ∈ t
+
+theorem readLaw_ident (r : RegDef) (hid : r.ident.length ≤ r.digits) : ReadLaw r.idField (.str r.ident) := by
+  refine ⟨ljust r.ident r.digits ' ', r.idField_rendersTo hid, ?_⟩
+  simp [parseText, RegDef.idField, Field.mk', canon, Val.isNull, strip_ljust]
+
+/-- **One register in positional text storage.** -/
+theorem item_text (r : RegDef) (data : List Val) (h : ItemText r data) :
+    ∃ out, r.writeData .text data = .ok (some (.str (out ++ ['\n']))) ∧ ¬ '\n' ∈ out ∧
+      shapeOk r .text (.str (out ++ ['\n'])) = true ∧ r.matchesText (out ++ ['\n']) = true ∧
+      r.readDataText (out ++ ['\n']) = .ok (canonData r .text data (.str (out ++ ['\n']))) := by
+  obtain ⟨hdel, hid, hstart, hdis, hlen, hne, hidnl, hlaw, hnl⟩ := h
+  have hrs : ∃ rs, All2 (fun (fv : Field × Val) r => rendersTo fv.1 fv.2 r) (r.fields.zip data) rs := by
+    generalize r.fields.zip data = zs at hlaw
+    induction zs with
+    | nil => exact ⟨[], .nil⟩
+    | cons z zs ih =>
+      obtain ⟨t, h1, _⟩ := hlaw z List.mem_cons_self
+      obtain ⟨rs, hrs⟩ := ih (fun fv hfv => hlaw fv (List.mem_cons_of_mem z hfv))
+      exact ⟨t :: rs, .cons h1 hrs⟩
+  obtain ⟨rs, hr⟩ := hrs
+  obtain ⟨out, hout, hwd, hrd, hslice, hspans, _⟩ := r.regLine data rs hdel hlen hr hid hstart hdis hne
+  have hR : All2 (fun (fv : Field × Val) r => rendersTo fv.1 fv.2 r)
+      ((r.idField :: r.fields).zip (Val.str r.ident :: data)) (ljust r.ident r.digits ' ' :: rs) := by
+    simp only [List.zip_cons_cons]
+    exact All2.cons (R := fun (fv : Field × Val) r => rendersTo fv.1 fv.2 r) (a := (r.idField, Val.str r.ident))
+      (r.idField_rendersTo hid) hr
+  have hlen' : (r.idField :: r.fields).length = (Val.str r.ident :: data).length := by simp [hlen]
+  have hD : Cfi.Disjoint (r.idField :: r.fields) := by
+    refine ⟨fun g hg => Or.inl ?_, hdis⟩
+    have := hstart g hg
+    simpa [RegDef.idField, Field.mk'] using this
+  have hW : writePos (r.idField :: r.fields) (.str r.ident :: data) = .ok (out ++ ['\n']) := by
+    simp [writePos, hout, Except.map]
+  have hout_nl : ¬ '\n' ∈ out := by
+    intro hm
+    rcases out_chars _ _ _ hlen' hR hD out hout '\n' hm with h1 | ⟨t, ht, hc⟩
+    · exact absurd h1 (by decide)
+    · rcases List.mem_cons.mp ht with rfl | ht
+      · simp only [ljust, List.mem_append, List.mem_replicate] at hc
+        rcases hc with hc | hc
+        · exact hidnl hc
+        · exact absurd hc.2 (by decide)
+      · obtain ⟨fv, hfv, hren⟩ := hr.of_mem_right ht
+        exact hnl fv hfv t hren.1 hc
+  -- length of the line
+  obtain ⟨_, hl⟩ := writeFields_shape _ _ _ hlen' hR [] [] out hout (fun i hi => by simp at hi)
+  have hdig : r.digits ≤ out.length := by
+    rw [hl]
+    have : ∀ (gs : List Field) (m : Nat), m ≤ gs.foldl (fun m f => max m f.stop) m := by
+      intro gs
+      induction gs with
+      | nil => intro m; exact Nat.le_refl _
+      | cons g gs ih => intro m; exact Nat.le_trans (Nat.le_max_left _ _) (ih _)
+    simp only [List.foldl_cons, RegDef.idField, Field.mk']
+    exact Nat.le_trans (by omega) (this _ _)
+  have htake : (out ++ ['\n']).take r.digits = ljust r.ident r.digits ' ' := by
+    rw [List.take_append_of_le_length hdig, ← hslice]; simp [slice]
+  refine ⟨out, hwd, hout_nl, ?_, ?_, ?_⟩
+  · simp only [shapeOk, hdel, List.getLast?_append, List.getLast?_singleton, Option.some_or, beq_self_eq_true,
+      List.dropLast_concat, Bool.true_and, Bool.and_eq_true, Bool.not_eq_true', Bool.or_eq_true, beq_iff_eq,
+      decide_eq_true_eq]
+    refine ⟨?_, Or.inl htake⟩
+    simpa using hout_nl
+  · simp only [RegDef.matchesText, htake]
+    exact isInfix_ljust _ _
+  · rw [hrd]
+    have hlawF : ∀ fv ∈ (r.idField :: r.fields).zip (Val.str r.ident :: data), ReadLaw fv.1 fv.2 := by
+      intro fv hfv
+      simp only [List.zip_cons_cons, List.mem_cons] at hfv
+      rcases hfv with rfl | hfv
+      · exact readLaw_ident r hid
+      · exact hlaw fv hfv
+    have := readBack_canon _ _ _ hlen' hD hlawF hW
+    simp only [readPos, List.map_cons, List.zip_cons_cons, List.cons.injEq] at this
+    simp only [canonData, hdel, readPos, this.2]
+
+end Props.C10
+
+namespace Props.C10
+open Cfi Cfi.Text Spec.C10 Spec.C01 Props.C01
+
+/-! ### the stream -/
+
+theorem lineOf_line (body rest : List Char) (hb : ¬ '\n' ∈ body) :
+    Stream.lineOf '\n' (body ++ '\n' :: rest) = body ++ ['\n'] := by
+  induction body with
+  | nil => simp [Stream.lineOf]
+  | cons c body ih =>
+    have hc : (c == '\n') = false := by
+      have : c ≠ '\n' := fun e => hb (by simp [e])
+      simpa using this
+    have hb' : ¬ '\n' ∈ body := fun e => hb (by simp [e])
+    simp only [List.cons_append, Stream.lineOf, hc, Bool.false_eq_true, if_false, ih hb']
+
+/-- `readline()` on a buffer positioned at a written register returns exactly
+that register's text and leaves the stream at its end -/
+theorem readline_line (s : Stream Char) (body rest : List Char) (hb : ¬ '\n' ∈ body)
+    (hr : s.rest = (body ++ ['\n']) ++ rest) :
+    (s.readline '\n').1 = body ++ ['\n'] ∧ (s.readline '\n').2.pos = s.pos + (body.length + 1) ∧
+    (s.readline '\n').2.rest = rest ∧ (s.readline '\n').2.content = s.content := by
+  have hl : (s.readline '\n').1 = body ++ ['\n'] := by
+    rw [Stream.readline_fst, hr]
+    have := lineOf_line body rest hb
+    simpa using this
+  have hacc := accounts_readline '\n' s
+  refine ⟨hl, ?_, ?_, hacc.content⟩
+  · rw [hacc.pos, hl]; simp
+  · have := hacc.rest
+    rw [hl, hr] at this
+    exact (List.append_cancel_left this).symm
+
+/-- what each item wrote, with the facts `item_text` gives -/
+def WrittenText (item : RegDef × List Val) (w : Data) : Prop :=
+  ∃ out, w = .str (out ++ ['\n']) ∧ ¬ '\n' ∈ out ∧
+    shapeOk item.1 .text w = true ∧ item.1.matchesText (out ++ ['\n']) = true ∧
+    item.1.readDataText (out ++ ['\n']) = .ok (canonData item.1 .text item.2 w)
+
+theorem readAll_text (items : List (RegDef × List Val)) (ws : List Data)
+    (hw : All2 WrittenText items ws) (s : Stream Char) (hrest : s.rest = ws.flatMap textOf) :
+    ∃ obs, readAllText s.pos s items ws = some obs ∧ obs.length = items.length ∧
+      Spec.C10.holds.go .text s.pos items obs = true := by
+  induction hw generalizing s with
+  | nil => exact ⟨[], rfl, rfl, rfl⟩
+  | @cons item w items ws h1 _ ih =>
+    obtain ⟨out, hwe, hnl, hshape, hmatch, hread⟩ := h1
+    obtain ⟨r, data⟩ := item
+    subst hwe
+    have hrest' : s.rest = (out ++ ['\n']) ++ ws.flatMap textOf := by
+      rw [hrest]; simp [List.flatMap_cons, textOf]
+    obtain ⟨hl, hp, hr', _⟩ := readline_line s out _ hnl hrest'
+    have hn : dataLen (Data.str (out ++ ['\n'])) = out.length + 1 := by simp [dataLen]
+    obtain ⟨obs, ho, hlen, hgo⟩ := ih (s.readline '\n').2 hr'
+    rw [hp] at ho hgo
+    refine ⟨⟨.str (out ++ ['\n']), s.pos + (out.length + 1), true,
+      canonData r .text data (.str (out ++ ['\n'])), s.pos + (out.length + 1)⟩ :: obs, ?_, by simp [hlen], ?_⟩
+    · simp only [readAllText, hn, hl, hread, Except.toOption, ho, textOf, hmatch, hp]
+    · simp only [Spec.C10.holds.go, hshape, hn, beq_self_eq_true, Bool.true_and, Bool.and_true, hgo]
+
+/-- **C10, positional text storage, for every stream of registers.** -/
+theorem text_positional (items : List (RegDef × List Val))
+    (h : ∀ item ∈ items, ItemText item.1 item.2) :
+    ∃ obs, run .text items = some obs ∧ Spec.C10.holds .text items obs = true := by
+  -- phase 1: every register is written
+  have hws : ∃ ws, writeAll .text items = some ws ∧ All2 WrittenText items ws := by
+    induction items with
+    | nil => exact ⟨[], rfl, .nil⟩
+    | cons item items ih =>
+      obtain ⟨ws, h1, h2⟩ := ih (fun it hit => h it (by simp [hit]))
+      obtain ⟨out, hw, hnl, hshape, hmatch, hread⟩ := item_text item.1 item.2 (h item (by simp))
+      refine ⟨.str (out ++ ['\n']) :: ws, ?_, .cons ⟨out, rfl, hnl, hshape, hmatch, hread⟩ h2⟩
+      simp only [writeAll, List.mapM_cons, hw, bind, Option.bind] at h1 ⊢
+      simp only [h1, pure]
+  obtain ⟨ws, h1, h2⟩ := hws
+  obtain ⟨obs, h3, h4, h5⟩ := readAll_text items ws h2 ⟨ws.flatMap textOf, 0⟩ (by simp [Stream.rest])
+  refine ⟨obs, by simp only [run, h1]; exact h3, ?_⟩
+  simp only [Spec.C10.holds, h4, beq_self_eq_true, Bool.true_and]
+  exact h5
 
 end Props.C10
